@@ -180,6 +180,8 @@ class Tally:
         d["graphs"] += 1
         if tr.get("hist"):
             self.hist["histories"] += 1
+        k = f"graph class:{(tr.get('case') or {}).get('cls') or 'Connectivity'}"
+        self.forms[k] = self.forms.get(k, 0) + 1
         for e in tr["ev"][1:]:
             if e["ev"] in SETUP_EVENTS:
                 if e["ev"] in ("edit", "pedit"):
@@ -440,7 +442,8 @@ def run(tier, seed, replay_path):
         if h["histories"] and h["abandoned_at_edit"] * 2 > h["histories"]:
             raise tlc.MachineryError(f"vacuity guard: most histories were abandoned at an edit: {h}")
         need = [f"{r}:{f}" for r in ("start", "direction", "atom-argument") for f in G.FORMS] + \
-               ["direction passed as the integer 0", "start passed as the integer 0", "history query through view"]
+               ["direction passed as the integer 0", "start passed as the integer 0", "history query through view",
+                "graph class:Substructure"]
         if any(tally.forms.get(k, 0) < 20 for k in need):
             raise tlc.MachineryError(f"vacuity guard: an AtomLike form was (almost) never used: {tally.forms}")
         t_lanes = time.time() - t0
